@@ -37,7 +37,9 @@ Skipped(m) == m \in {"sk_b"} \/ IsType(m)
 (* one function pointer per EXPORTED method, in declaration order - whatever attributes the methods carry *)
 VtblLayout(t) == SelectSeq(Pool[t], LAMBDA m : ~Skipped(m))
 
-(* a group definition: sequences (listing order) of mandatory names and of optional [trait, key] pairs *)
+(* a group definition: sequences (listing order) of mandatory names and of optional [trait, key] pairs.  A name may be   *)
+(* written with a path (`self::Alpha`, `zeta::Alpha`): the key is its last segment (or the alias), the path plays no part *)
+(* in the order - every second rendered listing spells some names with a path                                             *)
 Key(o) == o.key
 GroupLayout(mand, opt) ==
   [mandatory |-> SortByRank({mand[k] : k \in DOMAIN mand}),
